@@ -207,6 +207,14 @@ impl Prop for C01 {
                 sink(Case::new("powers", format!("({b} ^ {n}) * {b}")));
             }
         }
+        // integer exponents that are not *written* as integers (a point, an exponent, a percent
+        // sign): whether an exponent is an integer is a question about its value
+        for b in ["0", "1", "-1", "2", "-3", "10", "0.5", "-0.5", ".25", "1.5e1", "50%"] {
+            for n in ["2.0", "3.", "20e-1", "0.2e1", "0.03e2", "200%", "-1.0", "-2.00", "1e1", "0.0", "-0e0", "4.000"] {
+                sink(Case::new("powers", format!("{b} ^ {n}")));
+                sink(Case::new("powers", format!("({b} ^ {n}) * {b}")));
+            }
+        }
         let l6: Vec<String> = ["0", "2", "-3", "0.5", "1e2", "50%"].iter().map(|s| s.to_string()).collect();
         gen_trees("trees4", 4, &l6, sink);
         // "every operator mix and nesting depth" also without parentheses: every operator sequence
